@@ -8,6 +8,8 @@ extern crate tlsh;
 
 mod cmpstream;
 mod codecstream;
+#[cfg(feature = "easy")]
+mod easystream;
 mod genstream;
 mod lenstream;
 mod util;
@@ -82,6 +84,16 @@ fn main() {
         "len" => lenstream::stream_len(&mut out, seed, budget),
         "len-sweep" => lenstream::stream_len_sweep(&mut out),
         "limits" => lenstream::stream_limits(&mut out, seed, budget),
+        #[cfg(feature = "easy")]
+        "stream" => easystream::stream_stream(&mut out, seed, budget),
+        #[cfg(feature = "easy")]
+        "file" => easystream::stream_file(&mut out, seed),
+        #[cfg(feature = "easy")]
+        "lie" => easystream::stream_lie(&mut out),
+        #[cfg(feature = "easy")]
+        "lie-child" => { easystream::lie_child(seed as usize, budget); return; }
+        #[cfg(feature = "easy")]
+        "cmpstr" => easystream::stream_cmpstr(&mut out, seed, budget),
         "kat" => genstream::stream_kat(&mut out, &format!("{}/kat.txt", corpus)),
         x => {
             eprintln!("unknown stream {}", x);
